@@ -30,6 +30,51 @@ def copy_repo():
     return d
 
 
+def copy_repo_at(commit):
+    """Scratch copy of /repo as of an earlier commit (for patches that no later tree accepts)."""
+    d = tempfile.mkdtemp(prefix="verif-seed-")
+    p = subprocess.Popen(["git", "-C", REPO, "archive", commit], stdout=subprocess.PIPE)
+    subprocess.run(["tar", "x", "-C", d], stdin=p.stdout, check=True)
+    p.wait()
+    return d
+
+
+def base_commit_for(patch):
+    """Newest /repo commit on which the patch applies cleanly."""
+    for c in subprocess.run(["git", "-C", REPO, "log", "--format=%h", "-60"], capture_output=True, text=True).stdout.split():
+        d = copy_repo_at(c)
+        try:
+            if subprocess.run(["git", "apply", "--check", patch], cwd=d, capture_output=True).returncode == 0:
+                return c
+        finally:
+            shutil.rmtree(d, ignore_errors=True)
+    return None
+
+
+def differential(patch, props, tier, run):
+    """For a patch that only applies to an earlier tree: run the checks on that tree with and without the patch and report,
+    per property, the signatures that appear only with the patch (the earlier tree lacks later fixes, so both runs
+    report the since-fixed defects alike)."""
+    base = base_commit_for(patch)
+    if base is None:
+        return None, {}
+    a, b = copy_repo_at(base), copy_repo_at(base)
+    try:
+        subprocess.run(["git", "apply", patch], cwd=b, check=True)
+        ra, rb = run(a, props, tier), run(b, props, tier)
+        out = {}
+        for p in props:
+            new = sorted(set(rb[p]["sigs_all"]) - set(ra[p]["sigs_all"]))
+            worse = rb[p]["rc"] == 2 and ra[p]["rc"] != 2
+            out[p] = dict(rc=1 if new else (2 if worse else 0), fired=bool(new), sigs=new[:6], differential_base=base,
+                          inconclusive=rb[p].get("inconclusive", []) if worse else [])
+            print(f"   check {p} (differential on {base}): new signatures with the patch: {new[:4]}", flush=True)
+        return base, out
+    finally:
+        shutil.rmtree(a, ignore_errors=True)
+        shutil.rmtree(b, ignore_errors=True)
+
+
 def apply_patch(patch, cwd):
     """git apply; if the context moved (a later fix: commit touched neighbouring lines) fall back to patch(1) with fuzz."""
     ap = subprocess.run(["git", "apply", patch], cwd=cwd, capture_output=True, text=True)
@@ -45,7 +90,7 @@ def run_checks(copy, props, tier):
         r = subprocess.run([os.path.join(VERIF, "check"), p, "--tier", tier, "--no-shrink"], cwd=VERIF, capture_output=True, text=True,
                            env=dict(os.environ, VERIF_REPO=copy, VERIF_WORKERS=os.environ.get("VERIF_WORKERS", "8")))
         sigs = sorted({l.split("sig=")[1].split(" detail=")[0] for l in r.stdout.splitlines() if "sig=" in l})
-        res[p] = dict(rc=r.returncode, fired=(r.returncode == 1 and "VIOLATION property=" in r.stdout), sigs=sigs[:6],
+        res[p] = dict(rc=r.returncode, fired=(r.returncode == 1 and "VIOLATION property=" in r.stdout), sigs=sigs[:6], sigs_all=sigs,
                       inconclusive=[l for l in r.stdout.splitlines() if l.startswith("INCONCLUSIVE")][:2])
         print(f"   check {p} tier={tier}: rc={r.returncode} fired={res[p]['fired']} {sigs[:3]}", flush=True)
     return res
@@ -104,12 +149,18 @@ def recheck(args):
         patched = copy_repo()
         try:
             ok, how = apply_patch(os.path.join(d, "patch.diff"), patched)
-            if not ok:
-                print(sid, "PATCH DOES NOT APPLY ANY MORE", how)
-                continue
             print(sid, meta["breaks"])
             props = ALL if args.all else [meta["breaks"]]
-            res = run_checks(patched, props, args.tier)
+            if not ok:
+                base, res = differential(os.path.join(d, "patch.diff"), props, args.tier, run_checks)
+                if base is None:
+                    print(sid, "PATCH APPLIES TO NO KNOWN TREE")
+                    continue
+                meta["differential_base"] = base
+            else:
+                res = run_checks(patched, props, args.tier)
+            for r in res.values():
+                r.pop("sigs_all", None)
             meta.setdefault("checks", {})[args.tier] = {**meta.get("checks", {}).get(args.tier, {}), **res}
             meta["caught_by"] = sorted({p for t in meta["checks"].values() for p, r in t.items() if r["fired"]})
             json.dump(meta, open(os.path.join(d, "meta.json"), "w"), indent=1)
